@@ -123,6 +123,15 @@ where
                 b.package_type = mk(s)?;
                 Out::Ok(b)
             },
+            Call::Rebuild => {
+                let keep = b.clone();
+                match crate::obs::guard("build() then into_builder()", || b.build().map(|p| p.into_builder())) {
+                    Out::Ok(Ok(nb)) => Out::Ok(nb),
+                    Out::Ok(Err(_)) => Out::Ok(keep),
+                    Out::Err(e) => Out::Err(e),
+                    Out::Panic(p) => Out::Panic(p),
+                }
+            },
             Call::PartsQualsFromIter(pairs) => guard("Qualifiers::try_from_iter", || {
                 if let Ok(q) = purl::Qualifiers::try_from_iter(pairs.iter().map(|(k, v)| (k.as_str(), v.as_str()))) {
                     b.parts.qualifiers = q;
